@@ -61,7 +61,7 @@ RecShape(s) == CASE s = "x" -> << <<"x", FALSE, "n:x">> >>
                  [] s = "['a-b']" -> << <<"['a-b']", FALSE, "n:a-b">> >>
                  [] s = "['a b']" -> << <<"['a b']", FALSE, "n:a b">> >>          \* string keys that are not names
                  [] s = "['1']" -> << <<"['1']", FALSE, "n:1">> >>
-                 [] s = "['a\"b']" -> << <<"['a\"b']", FALSE, "n:a\"b">> >>
+                 [] s = "[dq]" -> << <<"['a\"b']", FALSE, "n:a\"b">> >>     \* (id without a quote: cfg files do not unescape)
                  [] s = "['']" -> << <<"['']", FALSE, "n:">> >>
                  [] s = "x,['a b']" -> << <<"x", FALSE, "n:x">>, <<"['a b']", FALSE, "n:a b">> >>
                  [] s = "[string]" -> << <<"[string]", FALSE, "t:string">> >>
